@@ -878,6 +878,23 @@ Proof.
   apply crosscov_entry_spec; assumption.
 Qed.
 
+(* the default keyword nlags=None: all N lags, each the lagged mean over its own N-k products *)
+Theorem crosscov_default_is_lagged_mean_lemma x y i j k :
+  let N := length (nth 0 x []) in
+  (i < length x)%nat -> (j < length y)%nat -> (k < N)%nat ->
+  length (nth i x []) = N -> length (nth j y []) = N ->
+  length (nth j (nth i (crosscov_vector_kw x y None) []) []) = N /\
+  nth k (nth j (nth i (crosscov_vector_kw x y None) []) []) 0 ==
+  sumn (fun t => nth (t + k) (nth i x []) 0 * nth t (nth j y []) 0) (N - k)
+  / inject_Z (Z.of_nat (N - k)).
+Proof.
+  intros N Hi Hj Hk Lx Ly. unfold crosscov_vector_kw, nlags_kw. fold N. split.
+  - unfold crosscov_vector. fold N.
+    rewrite (nth_map' _ x i []) by assumption. rewrite (nth_map' _ y j []) by assumption.
+    rewrite map_length, seq_length. reflexivity.
+  - apply (crosscov_is_lagged_mean_lemma x y N i j k); auto. fold N. lia.
+Qed.
+
 (* ... and after `.transpose(2, 0, 1)`: entry (i, j) of the k-th lag matrix *)
 Theorem rxx_is_lagged_mean_lemma x nlags i j k :
   let N := length (nth 0 x []) in
